@@ -246,3 +246,27 @@ Proof.
   exists (fun _ => repeat xff 16), (mkSlice (repeat x00 36) 0 10 36).
   split; [reflexivity | vm_compute; discriminate].
 Qed.
+
+(* the reply pipe keeps the caller's pipe as its outer-most part, whatever the handler adds *)
+Lemma append_loop_prefix reg ids : forall p,
+  exists q, fst (pipe_append_loop reg p ids) = p ++ q.
+Proof.
+  induction ids as [|id r IH]; intros p; cbn [pipe_append_loop].
+  - exists []. rewrite app_nil_r. reflexivity.
+  - destruct (reg_get reg id) as [f|].
+    + destruct (IH (p ++ [f])) as (q & Hq). exists (f :: q). rewrite Hq, <- app_assoc. reflexivity.
+    + exists []. rewrite app_nil_r. reflexivity.
+Qed.
+
+Lemma reply_pipe_keeps_request reg req added :
+  exists q, reply_pipe reg req added = req ++ q.
+Proof.
+  unfold reply_pipe, pipe_append.
+  destruct (append_loop_prefix reg added req) as (q & Hq).
+  destruct (pipe_append_loop reg req added) as [p' [e|]]; cbn [fst] in *.
+  - exists q. exact Hq.
+  - destruct (Nat.ltb 255 (length p')); cbn [fst]; exists q; exact Hq.
+Qed.
+
+Lemma reply_pipe_no_addition reg req : reply_pipe reg req [] = req.
+Proof. unfold reply_pipe, pipe_append. cbn [pipe_append_loop]. destruct (Nat.ltb 255 (length req)); reflexivity. Qed.
